@@ -21,6 +21,13 @@ def main():
         print('no check for', a.prop)
         return 2
     run = common.Run(a.prop, a.tier, a.seed)
+    # malt writes every generated module to the temp directory and never removes it: give each check run its own
+    # temp directory (inherited by worker subprocesses through TMPDIR) and remove it at exit
+    import atexit, shutil, tempfile
+    scratch = tempfile.mkdtemp(prefix='maltverif_run_')
+    tempfile.tempdir = scratch
+    os.environ['TMPDIR'] = scratch
+    atexit.register(shutil.rmtree, scratch, True)
     try:
         if a.replay:
             return mod.replay(run, a.replay)
